@@ -201,10 +201,15 @@ OnOpenFailure(x, e, sid) ==
        LET x2 == DropState(RemoveOut(RemoveIn(x1, e), e), e) IN
        IF s.out = "closed" THEN SetSt(x2, e, Closed(0))
        \* the id of the substream that has just failed is kept as pending_open (transcribed as is)
-       ELSE IF s.out = "oi" THEN Rep(SetSt(x2, e, Closed(s.osid)), e, "openfail")
+       \* (recorded defect: a later open reuses the dead id and is never answered; repaired = the id is forgotten)
+       ELSE IF s.out = "oi" THEN
+            IF "failed-open-id-kept-pending" \in Fixed THEN Rep(SetSt(x2, e, Closed(0)), e, "openfail")
+            ELSE Rep([SetSt(x2, e, Closed(s.osid)) EXCEPT !.kf = @ \cup {"failed-open-id-kept-pending"}], e, "openfail")
        ELSE Rep(SetSt(x2, e, Closed(0)), e, "openfail")
   ELSE IF s.k = "closed" THEN
-       IF s.po = sid THEN SetSt(x1, e, Closed(0)) ELSE Panic(SetSt(x1, e, Closed(0)), e, "openfailure-closed-other-id")
+       \* the pending id has failed: it is forgotten (seeded defect "openfail_keeps_pending": it is kept)
+       IF s.po = sid THEN (IF Mut = "openfail_keeps_pending" THEN x1 ELSE SetSt(x1, e, Closed(0)))
+       ELSE Panic(SetSt(x1, e, Closed(0)), e, "openfailure-closed-other-id")
   ELSE Panic(SetSt(x1, e, Closed(0)), e, "openfailure-unexpected-" \o s.k)
 
 \* on_close_substream
